@@ -48,8 +48,8 @@ func summaryReport(cx *Ctx, r *ev.Report, classes map[string]bool) {
 // C01: every arm has exactly its defined effect (state, memory writes, port
 // writes); everything else unchanged.
 func c01(cx *Ctx, r *ev.Report) {
-	n := armObligations(cx, r, armSelection{prop: "C01", rule: "SUMMARY-EQ(arm): state+writes", keyPart: "effect",
-		diffKeep: func(a *engine.ArmResult, d engine.Diff) bool { return isStateLike(d) || isWriteEvent(d) }})
+	n := armObligations(cx, r, armSelection{prop: "C01", rule: "SUMMARY-EQ(arm): state + writes + order of accesses that can touch the same cell", keyPart: "effect",
+		diffKeep: func(a *engine.ArmResult, d engine.Diff) bool { return isStateLike(d) || isWriteEvent(d) || d.Cat == "order" }})
 	r.Analysed["arms_selected"] = n
 	// catalogue: every documented encoding has an arm
 	for _, a := range cx.Arms() {
@@ -101,7 +101,7 @@ var c02Classes = classSet("alu8", "rotA", "rot", "bit")
 
 func c02(cx *Ctx, r *ev.Report) {
 	n := armObligations(cx, r, armSelection{prop: "C02", rule: "SUMMARY-EQ(arm): 8-bit ALU/rotate/bit result and flags", keyPart: "value+flags", classes: c02Classes,
-		diffKeep: func(a *engine.ArmResult, d engine.Diff) bool { return isStateLike(d) || isWriteEvent(d) }})
+		diffKeep: func(a *engine.ArmResult, d engine.Diff) bool { return isStateLike(d) || isWriteEvent(d) || d.Cat == "order" }})
 	r.Analysed["arms_selected"] = n
 	r.AddFloor("alu_rotate_bit_arms", n, 559)
 	c02Uniform(cx, r)
@@ -114,7 +114,7 @@ var c03Classes = classSet("arith16", "incdec16")
 
 func c03(cx *Ctx, r *ev.Report) {
 	n := armObligations(cx, r, armSelection{prop: "C03", rule: "SUMMARY-EQ(arm): 16-bit arithmetic result and flags", keyPart: "value+flags", classes: c03Classes,
-		diffKeep: func(a *engine.ArmResult, d engine.Diff) bool { return isStateLike(d) || isWriteEvent(d) }})
+		diffKeep: func(a *engine.ArmResult, d engine.Diff) bool { return isStateLike(d) || isWriteEvent(d) || d.Cat == "order" }})
 	r.Analysed["arms_selected"] = n
 	r.AddFloor("arith16_arms", n, 32)
 	stepGlue(cx, r, "C03")
@@ -126,7 +126,7 @@ var c04Classes = classSet("jump", "call", "ret", "stack", "retint")
 
 func c04(cx *Ctx, r *ev.Report) {
 	n := armObligations(cx, r, armSelection{prop: "C04", rule: "SUMMARY-EQ(arm): control transfer, condition, stack traffic", keyPart: "control", classes: c04Classes,
-		diffKeep: func(a *engine.ArmResult, d engine.Diff) bool { return isStateLike(d) || isBusEvent(d) }})
+		diffKeep: func(a *engine.ArmResult, d engine.Diff) bool { return isStateLike(d) || isBusEvent(d) || d.Cat == "order" }})
 	r.Analysed["arms_selected"] = n
 	r.AddFloor("control_arms", n, 58)
 	c04Compose(cx, r)
@@ -136,9 +136,9 @@ func c04(cx *Ctx, r *ev.Report) {
 }
 
 func c05(cx *Ctx, r *ev.Report) {
-	n := armObligations(cx, r, armSelection{prop: "C05", rule: "EVENTS-EQ(arm): guarded multiset of Memory.Get/Set and IO.In/Out calls equals the reference's", keyPart: "accesses",
+	n := armObligations(cx, r, armSelection{prop: "C05", rule: "EVENTS-EQ(arm): guarded multiset of Memory.Get/Set and IO.In/Out calls equals the reference's, and accesses that can touch the same cell come in the reference's order", keyPart: "accesses",
 		diffKeep: func(a *engine.ArmResult, d engine.Diff) bool {
-			return isBusEvent(d) || (a.Info.Class == "io" || a.Info.Class == "block") && isStateLike(d)
+			return isBusEvent(d) || d.Cat == "order" || (a.Info.Class == "io" || a.Info.Class == "block") && isStateLike(d)
 		}})
 	r.Analysed["arms_selected"] = n
 	// Step's own bus traffic: on every row of the decision table the device
